@@ -63,6 +63,10 @@ def jobs(tier, seed):
     for l1, l2 in itertools.permutations(list(LISTS), 2):
         for eng in ['MD', 'RDA', 'IG']:
             out.append({'mode': 'warm', 'l1': l1, 'l2': l2, 'engine': eng, 'seed': seed})
+            if eng != 'RDA' or l1 == 'm3':
+                out.append({'mode': 'warm-zeros', 'l1': l1, 'l2': l2, 'engine': eng, 'seed': seed})
+    # fixed, seed-independent witness of open finding F15 (mirror descent stalls after a warm start from a boundary optimum)
+    out.append({'mode': 'warm-zeros', 'l1': 'm2', 'l2': 'm3', 'engine': 'MD', 'seed': 2, 'witness': 'F15'})
     return out
 
 
@@ -205,6 +209,36 @@ def run_history(zc, hist, seed, acc=None):
     return fails
 
 
+def run_warm_zeros(l1, l2, engine, seed):
+    """warm start with structural zeros: the second call must keep the declared cells empty and fit no worse than a cold start"""
+    from mbi import Domain, FactoredInference
+    M.deterministic_eigsh()
+    zeros = {('A', 'B'): [(0, 1), (1, 2)], ('C',): [(1,)]}
+    p1, p2 = problem(l1, seed), problem(l2, seed + 1)
+    out = {}
+    for mode in ('warm', 'cold'):
+        eng = FactoredInference(Domain(M.ATTRS3, M.SIZES3), iters=200, warm_start=(mode == 'warm'), structural_zeros={k: list(v) for k, v in zeros.items()})
+        with M.quiet():
+            if mode == 'warm':
+                eng.estimate(p1.fresh_measurements(), total=70.0, engine=engine)
+            eng.iters = 800
+            out[mode] = eng.estimate(p2.fresh_measurements(), total=70.0, engine=engine)
+    fails = []
+    pw = np.asarray(out['warm'].datavector(flatten=False), dtype=float)
+    pc = np.asarray(out['cold'].datavector(flatten=False), dtype=float)
+    for key, cells in zeros.items():
+        m = O.marginal(pw, M.ATTRS3, key)
+        for c in cells:
+            if not m[tuple(c)] <= 1e-12 * 70.0:
+                fails.append(('warm-zeros-lost', 'warm start %s -> %s with %s: mass %.4g on the structurally impossible cell %s=%r (cold start: %.3g)' % (
+                    l1, l2, engine, m[tuple(c)], key, tuple(c), O.marginal(pc, M.ATTRS3, key)[tuple(c)])))
+    fw, fc = p2.f(pw.flatten()), p2.f(pc.flatten())
+    fu = p2.f(p2.uniform(70.0))
+    if not fails and fw > fc + 2e-2 * abs(fu - fc) + 1e-6 * max(1.0, fc):
+        fails.append(('warm-not-optimal', 'warm start %s -> %s with %s and structural zeros: loss %.8g, cold start reaches %.8g' % (l1, l2, engine, fw, fc)))
+    return fails, 0.0
+
+
 def run_warm(l1, l2, engine, seed):
     from mbi import Domain, FactoredInference
     M.deterministic_eigsh()
@@ -232,9 +266,9 @@ def run_warm(l1, l2, engine, seed):
 def run_job(job):
     acc = Acc()
     acc.digests_states = set()
-    if job['mode'] == 'warm':
+    if job['mode'] in ('warm', 'warm-zeros'):
         case = dict(job)
-        fails, ratio = run_warm(job['l1'], job['l2'], job['engine'], job['seed'])
+        fails, ratio = (run_warm if job['mode'] == 'warm' else run_warm_zeros)(job['l1'], job['l2'], job['engine'], job['seed'])
         acc.case(case)
         acc.states += 2
         acc.transitions += 2
@@ -242,7 +276,7 @@ def run_job(job):
         acc.maximum('warm_excess_over_range:' + job['engine'], ratio, case)
         acc.outcome('warm:%s' % ('ok' if not fails else 'FAIL'))
         for k, m in fails:
-            acc.violate(case, {'kind': k, 'engine': job['engine']}, m)
+            acc.violate(case, {'kind': k, 'engine': job['engine'], 'zeros': job['mode'] == 'warm-zeros'}, m)
         acc.sample(case)
         return acc
     n = len(ALPHABET)
@@ -270,8 +304,8 @@ def run_job(job):
 
 
 def replay(case):
-    if case.get('mode') == 'warm':
-        fails, _ = run_warm(case['l1'], case['l2'], case['engine'], case['seed'])
+    if case.get('mode') in ('warm', 'warm-zeros'):
+        fails, _ = (run_warm if case['mode'] == 'warm' else run_warm_zeros)(case['l1'], case['l2'], case['engine'], case['seed'])
     else:
         fails = run_history(case['zc'], case['hist'], case['seed'])
     for k, m in fails:
